@@ -1,10 +1,8 @@
 (* C16 Serde form is exactly the string form. Model: Serialize = collect_str(Display), Deserialize = visit_str then from_str, no other visit method. *)
 Load "coq/props/Hdr".
 From PM Require Import BuildG C01P C16.
-Lemma src_rt : rt_ok cfg. Proof. apply conds_rt_ok. vm_compute. reflexivity. Qed.
-Lemma src_tbl : tbl_ok cfg. Proof. apply conds_tbl_ok. vm_compute. reflexivity. Qed.
-Lemma src_cfg_ok : cfg_ok cfg. Proof. exact (rt_cfg _ src_rt). Qed.
-Ltac sc := sidecond_with src_rt src_tbl.
+Lemma src_rt : rt_ok cfg. Proof. prove_rt. Qed.
+Lemma src_cfg_ok : cfg_ok cfg. Proof. sc. Qed.
 Theorem C16_deserialize_is_parse : forall (T E : Type) (sh : shape T E) e s, de cfg sh e (VStr s) = parse cfg sh s.
 Proof. intros. apply C16_string_iff. Qed.
 Print Assumptions C16_deserialize_is_parse.
